@@ -233,6 +233,15 @@ def runloop_cancel_guard(c: Ctx) -> tuple[bool, list[str]]:
     p = search([(head, ())], is_target=lambda n, d: n is head, is_barrier=lambda n, d: n.id in gid, edge_ok=edge_ok, transfer=fl.transfer)
     if p is not None:
         return False, ['an iteration of the run loop can start over without re-checking current_task().cancelling()'] + fmt_path(head, p)
+    # the same between any two steps: an inner loop that keeps stepping (a "drain the backlog" fast path) must re-check too, otherwise a cancellation absorbed inside a
+    # step is lost for as long as the backlog lasts
+    step_nodes = [n for n in g.live_nodes() if n.ast is not None and n.kind in ('stmt', 'return', 'if', 'while') and any(call_name(x) == 'step' for x in q.node_calls(n))]
+    sid = {n.id for n in step_nodes}
+    for sn in step_nodes:
+        succ0 = [(e.dst, ()) for e in sn.succ]
+        p2 = search(succ0, is_target=lambda n, d: n.id in sid, is_barrier=lambda n, d: n.id in gid, edge_ok=lambda n, e, d: fl.edge_ok(n, e, d), transfer=fl.transfer) if succ0 else None
+        if p2 is not None:
+            return False, ['step() can be called again without re-checking current_task().cancelling() in between (an inner loop around step())'] + fmt_path(sn, p2)
     return True, []
 
 
